@@ -170,3 +170,7 @@ reg("C01", "rv-determinism", "exploration", "byte-level digest comparison across
     "Each sampled transaction of long mixed histories (incl. WAT packages, pools, batches, rejects, epoch changes) is executed uncommitted under a reference configuration and then again: identically, under the diagnostic flag combinations (kernel trace, cost breakdown, execution trace depths, debug information), with a cold vs warm code cache, on 16 threads released together against a shared database and cache, as the committed execution, and in a second process replaying the same history; a canonical byte digest of kind, outcome, state updates (order included), events, logs, fee summary/source/destination, new entities and nullifications must be identical in all of them.",
     _LEDGER_NOTE + " Same machine and architecture only; no TSan build.", "DESIGN.md §4 C01",
     watchdog={"quick": 2400, "thorough": 4 * 3600})
+
+reg("C40", "rv-accessctl", "exploration", "safety monitor over the access-controller call history (role-level model)",
+    "Random scripts of all 21 controller methods (plus direct role-assignment attacks) under every kind of badge presentation, with proposals drawn from a small pool (equal / near-miss / stale contents), cancels, locks, and time advanced by real round changes to just before / at / after the configured delay, on latest-protocol (v2 code), Anemone-only (v1 code) and upgraded ledgers; after every transaction the stored rules and the controlled-asset vault are compared with a model that allows a change only for a different-role confirmation of the identical pending proposal or the recovery role's own timed proposal after its delay; create_proof must fail while primary is locked.",
+    _LEDGER_NOTE + " Delay elapsed is judged at minute resolution as the controller does.", "DESIGN.md §4 C40")
